@@ -55,6 +55,15 @@ CHECKS.update({
             "solver verdicts trusted; generated code beyond the ATN and tables is outside; JS/Java parsers are not run", "SMT regular-language (RegLan) equality queries"),
 })
 
+CHECKS["C01"] = (A, MC, "the real listener (walked by the real ParseTreeWalker over grammar-conforming parse trees built from the generated context classes), the real printer and again the listener: rendering the parser's model directly succeeds, the text is the canonical document, re-parsing gives the first model, the text is byte-stable; all tree shapes up to the bound, names symbolic",
+                 "lexer+parser replaced by the parser stub (contract validated natively on sampled witnesses through the real ParseDSL); protojson not encoded; bounded shapes", TECH)
+CHECKS["C03"] = (A + "+" + B, MC, "pre-pass lemmas on all byte strings up to the bound; listener lemma (model == direct reading of the tree, independent of optional layout tokens, comments, wrapped condition expressions, long operand chains) on generated parse trees; layout facts of the grammar as regular-language inclusions on the ATN (any length)",
+                 "ANTLR runtime conformance to its ATN is outside (residual); parser stub contract validated natively on sampled witnesses", TECH + " + RegLan inclusion queries on the ATN")
+CHECKS["C09"] = (A + "+" + B, MC, "grammar-level structural rules as regular-language inclusions on the ATN the Go parser interprets (any length); listener-raised rejections (duplicate relation/condition/parameter, extend under a model header, repeated extend) on generated trees whose names are symbolic: rejected iff a rule is broken, accepted documents reflect every declaration",
+                 "that the ANTLR runtime reports every deviation from the ATN is outside (residual); parser stub", TECH + " + RegLan inclusion queries on the ATN")
+CHECKS["C16"] = (A, MC, "SyntaxError stores line-1/column for arbitrary positions with or without offending token; pre-pass keeps lines and columns; listener-raised errors sit on the name token of a declaration; merge conflicts name the file and the line/column of the conflicting declaration (names symbolic, prefixes and same-named relations of other types chosen by the solver); line/column helper lemmas",
+                 "ANTLR's own token positions with respect to the cleaned text are outside; parser stub / merge stub contracts validated natively", TECH)
+
 NOT_APPLICABLE = {
     "C17": "every clause is about gonum multigraph/topo/dot behaviour, which a hand-written SSA encoder cannot reach (reflection-based iterators); stubbing gonum would stub away the property",
 }
